@@ -245,7 +245,7 @@ def build_case(ctx, index, *, salt="build"):
 async def search(ctx):
     import corr_kernel as _ck
 
-    await _ck.run_scenarios(ctx, lambda ctx, run_: Observer(ctx, run_), ["resource_race", "hold_recycle"])
+    await _ck.run_scenarios(ctx, lambda ctx, run_: Observer(ctx, run_), ["resource_race", "hold_recycle", "shrink_resources"])
     import asyncio
     import contextlib
 
